@@ -34,6 +34,13 @@ func C02(e *Env) {
 	r.Rule("R06.4", "what a resolver emits is what it records, and the resolver's result is copied field by field into output.Arg (shared with C06)", 8)
 	c03Sanitise(e)
 	r.Rule("R03.1", "argument payloads reach the generated code quoted, exported or as grammar-checked groups (shared with C03): non-string literals keep their value and type through exporter.MustExport", 14)
+	c03ParamRules(e, "R03.4")
+	r.Rule("R03.4", "parameters are resolved by the primitive chain, so a parameter string that looks like $gontainer or !value is injected as that string (shared with C03)", 4)
+	freshRule(e, "R09.5", 1, "internal/cmd/runner")
+	mergeUnconditionalRule(e, "R09.2b")
+	r.Rule("R09.5", "the decode target is fresh per file, so a service of an earlier file is not merged with itself and its calls are not applied twice (shared with C09)", 1)
+	r.Rule("R09.2b", "every decoded file is merged (shared with C09)", 1)
+	compileStepsUseFullChain(e, "R02.1")
 	fieldProvenance(e, "R02.3")
 	r.Rule("R02.3", "field provenance: in processService, serviceCalls, serviceTags and processDecorator every field of the output value is computed from the same-named declared attribute (through the function's own helpers and locals) and reads no other attribute; no field is left unset", 18)
 	c14Groups(e)
@@ -92,6 +99,14 @@ func C04(e *Env) {
 	fieldProvenance(e, "R02.3")
 	r.Rule("R02.3", "tag name/priority and decorator tag/function/arguments are computed from the same-named declared attributes (field provenance, shared with C02)", 18)
 	c04More(e)
+	statelessRule(e, "R02.6", "internal/pkg/resolver", "internal/pkg/token", "internal/pkg/syntax", compilerRel)
+	r.Rule("R02.6", "resolvers keep no state from one argument to the next (shared with C02): a decorator argument is compiled from its own value, not from an earlier same-looking one", 2)
+	freshRule(e, "R09.5", 1, "internal/cmd/runner")
+	mergeUnconditionalRule(e, "R09.2b")
+	r.Rule("R09.5", "the decode target is fresh per file (shared with C09)", 1)
+	r.Rule("R09.2b", "every decoded file is merged — a file that holds only decorators is not skipped (shared with C09)", 1)
+	compileStepsUseFullChain(e, "R02.1")
+	r.Rule("R02.1", "the decorator step compiles its arguments with the full argument chain (so !tagged works in decorator arguments) (shared with C02)", 2)
 	r.NotCovered = append(r.NotCovered,
 		"the run-time order of tagged services (priority descending, then name) and the moment decorators are applied are the runtime library's behaviour",
 		"the payload handed to a decorator at run time")
